@@ -71,9 +71,13 @@ pub enum Hostile {
     UnsolicitedFirst,
     DuplicateAnswer,
     ShredCorrupted,
+    /// the answer is withheld and a peer keeps replaying a negative acknowledgement for the
+    /// request every 100 ms for the rest of the run
+    NackReplay,
 }
 
-pub const ALL_HOSTILE: [Hostile; 12] = [
+pub const ALL_HOSTILE: [Hostile; 13] = [
+    Hostile::NackReplay,
     Hostile::Nack,
     Hostile::Silence,
     Hostile::WrongVariant,
@@ -228,6 +232,7 @@ fn run_history_env(fx: &Fixture, deviations: &BTreeMap<usize, Hostile>, env: Env
             let mut stored = false;
             let last_dev = deviations.keys().max().copied().unwrap_or(0);
             let mut timeouts_after_last_dev = 0usize;
+            let mut storm: Option<MReqType> = None;
             loop {
                 // collect newly sent requests (one per distinct request type, whatever the peers addressed)
                 let new: Vec<(RepairRequest, SocketAddr)> = std::mem::take(&mut *vout.lock().unwrap());
@@ -245,8 +250,19 @@ fn run_history_env(fx: &Fixture, deviations: &BTreeMap<usize, Hostile>, env: Env
                     if stored || timeouts_after_last_dev >= 4 || timeouts >= 10 {
                         break;
                     }
-                    tokio::time::advance(Duration::from_millis(700)).await;
-                    settle().await;
+                    if let Some(t) = &storm {
+                        for _ in 0..7 {
+                            if let Ok(r) = from_mirror::<MResponse, RepairResponse>(&MResponse::Nack(t.clone())) {
+                                let _ = vin.send(r);
+                            }
+                            settle().await;
+                            tokio::time::advance(Duration::from_millis(100)).await;
+                            settle().await;
+                        }
+                    } else {
+                        tokio::time::advance(Duration::from_millis(700)).await;
+                        settle().await;
+                    }
                     timeouts += 1;
                     if position >= last_dev {
                         timeouts_after_last_dev += 1;
@@ -277,6 +293,10 @@ fn run_history_env(fx: &Fixture, deviations: &BTreeMap<usize, Hostile>, env: Env
                         let crafted: Vec<MResponse> = match (h, gm) {
                             (Hostile::Nack, _) => vec![MResponse::Nack(t.clone())],
                             (Hostile::Silence, _) => vec![],
+                            (Hostile::NackReplay, _) => {
+                                storm = Some(t.clone());
+                                vec![]
+                            }
                             (Hostile::WrongVariant, Some(_)) => match &t {
                                 MReqType::LastSliceRoot(_) => vec![MResponse::SliceRoot(t.clone(), [7; 32], vec![])],
                                 MReqType::SliceRoot(..) => vec![MResponse::LastSliceRoot(t.clone(), 0, [7; 32], vec![])],
